@@ -2,7 +2,7 @@ CONSTANTS D = 3  Mode = "chained"  Lo = 2  Hi = 2  N = 0
   ShapeSet <- Rect
   SizeTermSt = {"completed", "skipped"}
   ElemTermSt = {"completed", "skipped", "failed"}
-  OrderSet <- Free
+  OrderFor <- Free
   Drop = TRUE  Eager = FALSE  Record = FALSE
 SPECIFICATION FairSpec
 INVARIANT I1_Identity
